@@ -13,6 +13,13 @@ from pathlib import Path
 MEMBER_KIND = {"m1": "attr", "m2": "method"}
 
 
+def normalise(case: dict) -> dict:
+    """TLC prints a function with an empty domain (Mem = {}) as an empty sequence."""
+    for key in ("attr", "inh"):
+        case[key] = [x if isinstance(x, dict) else {} for x in case[key]]
+    return case
+
+
 # ---------------------------------------------------------------------------------------------------
 # rendering
 def mod_name(case: dict, c: int, prefix: str = "") -> str:
@@ -62,8 +69,10 @@ def import_lines(case: dict, module: str, prefix: str = "") -> list:
     if layout == "one":
         return []
     mods = case["mods"]
-    if module == "mc":  # the re-exporting module of layout "chain": one import per class used across modules
+    if module in ("mc", "md"):  # the re-exporting modules of layouts "chain" / "chain2": one import per class used across modules
         needed = sorted({b for c in range(1, n + 1) for b in case["bases"][c - 1] if mods[b - 1] != mods[c - 1]})
+        if module == "md":
+            return [f"from {prefix}mc import C{b}" for b in needed]
         return [f"from {prefix}{mods[b - 1]} import C{b}" for b in needed]
     needed = sorted({b for c in range(1, n + 1) if mods[c - 1] == module for b in case["bases"][c - 1] if mods[b - 1] != module})
     if not needed:
@@ -75,21 +84,21 @@ def import_lines(case: dict, module: str, prefix: str = "") -> list:
         return [f"from {other} import " + ", ".join(f"C{b} as K{b}" for b in needed)]
     if layout == "attr":
         return [f"import {other}"]
-    if layout == "chain":
-        return [f"from {prefix}mc import " + ", ".join(f"C{b}" for b in needed)]
+    if layout in ("chain", "chain2"):
+        return [f"from {prefix}{'mc' if layout == 'chain' else 'md'} import " + ", ".join(f"C{b}" for b in needed)]
     raise ValueError(layout)
 
 
 def render(case: dict, prefix: str = "", guarded: bool = False) -> dict:
     """module name -> source, as Griffe sees the hierarchy (classes in index order: forward references stay)."""
     out = {}
-    present = ["ma"] if case["layout"] == "one" else (["mb", "mc", "ma"] if case["layout"] == "chain" else ["mb", "ma"])
+    present = {"one": ["ma"], "chain": ["mb", "mc", "ma"], "chain2": ["mb", "mc", "md", "ma"]}.get(case["layout"], ["mb", "ma"])
     for module in present:
         lines = import_lines(case, module, prefix)
         chunks = [class_chunk(case, c, prefix, guarded=guarded) for c in range(1, case["n"] + 1) if case["mods"][c - 1] == module]
         out[prefix + module] = "\n".join(lines) + ("\n\n" if lines else "") + "\n".join(chunks)
-    # dependency order for loaders that import for real: mb, mc, ma
-    order = [prefix + m for m in ("mb", "mc", "ma") if prefix + m in out]
+    # dependency order for loaders that import for real: mb, mc, md, ma
+    order = [prefix + m for m in ("mb", "mc", "md", "ma") if prefix + m in out]
     return {k: out[k] for k in order}
 
 
@@ -297,12 +306,12 @@ def compare(case: dict, real: dict, agent: str, prefix: str = "") -> tuple:
         if ref["ok"]:
             want = paths(ref["order"][1:])
             if v["mro"] != want:
-                clause = "mro-order" if isinstance(v["mro"], list) else ("mro-loops" if v["mro"] == "RecursionError" else "mro-spurious-uncomputable")
+                clause = "mro-order" if isinstance(v["mro"], list) else {"RecursionError": "mro-loops", "ValueError": "mro-spurious-uncomputable"}.get(v["mro"], "mro-crashes")
                 viol.append((sig(clause, c, who=who), f"{self_path}.mro() = {v['mro']}, CPython's order is {want}"))
                 return
         else:
             if v["mro"] != "ValueError":
-                clause = "mro-loops" if v["mro"] == "RecursionError" else "mro-accepts-refused"
+                clause = "mro-accepts-refused" if isinstance(v["mro"], list) else ("mro-loops" if v["mro"] == "RecursionError" else "mro-crashes")
                 reason = "can reach an inheritance cycle" if case["cyc"][c - 1] else "is refused by CPython (no consistent order)"
                 viol.append((sig(clause, c, who=who), f"{self_path} {reason} but mro() gave {v['mro']} instead of raising ValueError"))
                 return
